@@ -150,10 +150,41 @@ def snapshot(objs, arrays):
     return out, [None if a is None else (np.asarray(a).tobytes().hex() + str(np.asarray(a).shape)) for a in arrays]
 
 
+def ints(a):
+    """array -> nested lists of exact integers (an impossible marker where the value is not an integer)"""
+    a = np.asarray(a, dtype=float)
+    r = np.rint(a)
+    bad = ~np.isfinite(a) | (np.abs(a - r) > 1e-6 * np.maximum(1.0, np.abs(a)))
+    return np.where(bad, OFF, r).astype(np.int64).tolist()
+
+
+def stage_record(b, e, got):
+    """The arrays the code held at the named points of getBH_level2 (hooks), for spec/FieldAlgo.tla:
+    computed / reduced in the GLOBAL frame (the concretization's rotation is undone), rotated / aggregated in the sensor frames."""
+    if set(got) != {"computed", "reduced", "rotated", "aggregated"}:
+        return {"has": False, "computed": [], "reduced": [], "rotated": [], "aggregated": []}
+    st = {"has": True}
+    for name in ("computed", "reduced"):
+        a = got[name]
+        st[name] = ints(b.k.unvec(a.reshape(-1, 3)).reshape(a.shape))
+    st["rotated"] = ints(got["rotated"])
+    can, _ = canonical(got["aggregated"], dict(e, sumup=False))
+    if can is None:
+        return {"has": False, "computed": [], "reduced": [], "rotated": [], "aggregated": []}
+    st["aggregated"] = can
+    return st
+
+
 def execute(b, e, tid, form="top"):
     """Run one scenario; returns the event for TV_FieldWrap (and the C08 observations)."""
     sources, sensors, everything = b.build(e)
     m = b.magpy
+    from magpylib._src import _verif_hooks as hooks
+    got = {}
+
+    def tracer(name, info, _got=got):
+        if "B" in info and name in ("computed", "reduced", "rotated", "aggregated"):
+            _got[name] = np.array(info["B"], dtype=float, copy=True)
     fn = {"B": m.getB, "H": m.getH, "J": m.getJ, "M": m.getM}[e["field"]]
     pre, _ = snapshot(everything, [])
     ev = {"tid": tid, "call": e, "form": form, "outcome": "ok", "shape": [], "den": [1] * len(e["sensors"]), "out": [], "ok_reshape": False}
@@ -167,7 +198,11 @@ def execute(b, e, tid, form="top"):
             else:
                 obs_arg = m.Collection(*sensors)
             everything = everything + [obs_arg]
-        out = fn(src_arg, obs_arg, sumup=e["sumup"], squeeze=e["squeeze"], pixel_agg=None if e["agg"] == "none" else e["agg"])
+        hooks.tracer = tracer
+        try:
+            out = fn(src_arg, obs_arg, sumup=e["sumup"], squeeze=e["squeeze"], pixel_agg=None if e["agg"] == "none" else e["agg"])
+        finally:
+            hooks.tracer = None
         ev["shape"] = [int(x) for x in np.shape(out)]
         can, dens = canonical(np.asarray(out), e)
         if can is not None:
@@ -178,6 +213,7 @@ def execute(b, e, tid, form="top"):
         ev["outcome"] = "exc:" + type(ex).__name__
     post, _ = snapshot(everything, [])
     ev["unchanged"] = (pre == post)
+    ev["stages"] = stage_record(b, e, got) if ev["outcome"] == "ok" else stage_record(b, e, {})
     return ev
 
 
@@ -213,6 +249,7 @@ def run_scenarios(args):
                 except Exception as ex:  # pylint: disable=broad-except
                     ev2["outcome"] = "exc:" + type(ex).__name__
                 ev2["unchanged"] = True
+                ev2["stages"] = stage_record(b, e2, {})
                 f.write(json.dumps(ev2, separators=(",", ":")) + "\n")
                 n += 1
     return n
